@@ -12,3 +12,5 @@ ASSUMPTIONS = ["clap derives `--field-name` long flags from field names", "ryu /
 OBLIGATIONS = [K.COMPAT, K.OPTION_FLOW, K.RESTRICT, K.WRITER_SIBS, K.HANDOVER, K.QUEUES, K.PARSE_ERRORS, K.WIG_KEEP, K.BED_KEEP]
 OBLIGATIONS = OBLIGATIONS + [K.SOURCE_SIBS]
 OBLIGATIONS = OBLIGATIONS + [K.ARG_NAMES]
+# the parallel source reads the chromosome index built by index_chroms: a wrong index makes it differ from the serial source (or refuse sorted input)
+OBLIGATIONS = OBLIGATIONS + [o for o in (K.BISECTION, K.GROUPING, K.VIEWS) if o not in OBLIGATIONS]
